@@ -113,7 +113,10 @@ func devCmd(args []string) {
 				}
 				if *dumpAll != "" && strings.Contains(o.ID, *dumpAll) {
 					f := filepath.Join(os.TempDir(), "gcv-dump.smt2")
-					os.WriteFile(f, []byte(o.Query()), 0o644)
+					rel := o.relaxed
+					o.relaxed = false
+					os.WriteFile(f, []byte(o.Query()), 0o644) // the full query, also when the answer came from the relaxed one
+					o.relaxed = rel
 					fmt.Println("        query written to", f)
 				}
 				if o.Kind != "canary" && o.Result != "unsat" && *dump {
